@@ -54,6 +54,7 @@ type dlPayload struct {
 }
 
 type c09Send struct {
+	viaPeer    bool   // sent by a peer actor with Context.Send and the *PID value it used while the target was alive
 	viaRequest bool   // sent with Engine.Request: the sender is the request's response PID
 	class      string // never stopped respawned foreign nil
 	target     *actor.PID
@@ -137,6 +138,32 @@ func c09Run(c *caseCtx) (res caseResult) {
 		}
 	}, "tgt", actor.WithID("live"))
 	deadSender := actor.NewPID("local", "tgt/stopped")
+	// a peer that talked to a target while it was alive and keeps the PID value it used: what it sends after
+	// the target has stopped is undeliverable like anything else
+	type talkReq struct {
+		pid  *actor.PID
+		msg  any
+		done chan struct{}
+	}
+	talker := e.SpawnFunc(func(c *actor.Context) {
+		if rq, ok := c.Message().(talkReq); ok {
+			c.Send(rq.pid, rq.msg)
+			close(rq.done)
+		}
+	}, "tgt", actor.WithID("talker"))
+	talk := func(pid *actor.PID, msg any) {
+		rq := talkReq{pid: pid, msg: msg, done: make(chan struct{})}
+		e.Send(talker, rq)
+		<-rq.done
+	}
+	peered := e.SpawnFunc(func(*actor.Context) {}, "tgt", actor.WithID("peered"))
+	talk(peered, "hello while you are there")
+	select {
+	case <-e.Poison(peered).Done():
+	case <-time.After(wd):
+		res.inconclusive("target did not stop")
+		return
+	}
 	// subscriptions for PIDs that have no actor: never spawned, and subscribed only after the actor stopped
 	nGhost := r.Intn(3)
 	for i := 0; i < nGhost; i++ {
@@ -269,6 +296,8 @@ func c09Run(c *caseCtx) (res caseResult) {
 		s := &sends[i]
 		if s.target != nil && s.msg != nil && s.class != "foreign" && r.Intn(8) == 0 {
 			s.viaRequest = true
+		} else if s.class == "stopped" && s.msg != nil && r.Intn(2) == 0 {
+			s.viaPeer, s.target, s.sender = true, peered, talker
 		}
 		classes[s.class]++
 	}
@@ -287,6 +316,8 @@ func c09Run(c *caseCtx) (res caseResult) {
 					// a request to nobody: the message is undeliverable like any other (the caller gets its timeout)
 					resp := e.Request(s.target, s.msg, 50*time.Millisecond)
 					go resp.Result()
+				case s.viaPeer:
+					talk(s.target, s.msg)
 				case s.sender == nil && i%2 == 0:
 					e.Send(s.target, s.msg)
 				default:
@@ -512,6 +543,11 @@ func c09Run(c *caseCtx) (res caseResult) {
 		res.count("concurrent_replies", int64(k))
 	}
 	res.count("sends", int64(n))
+	for _, s := range sends {
+		if s.viaPeer {
+			res.count("sends_by_a_peer_actor_that_knew_the_target_alive", 1)
+		}
+	}
 	res.count("dead_letters_expected", int64(classes["never"]+classes["stopped"]+classes["respawned"]))
 	res.count("remote_missing_expected", int64(classes["foreign"]))
 	res.count("dead_subscribers", int64(nDead))
@@ -521,7 +557,7 @@ func c09Run(c *caseCtx) (res caseResult) {
 	if c.n < 2 || res.Verdict == vViolated {
 		var ss []string
 		for _, s := range sends {
-			ss = append(ss, fmt.Sprintf("#%d %s -> %v msg=%T sender=%v", s.tag, s.class, s.target, s.msg, s.sender))
+			ss = append(ss, fmt.Sprintf("#%d %s -> %v msg=%T sender=%v viaPeer=%v", s.tag, s.class, s.target, s.msg, s.sender, s.viaPeer))
 		}
 		res.Sample = map[string]any{"scenario": res.Desc, "sends": ss, "dead_letter_events_seen_by_sentinel": prev}
 	}
